@@ -169,6 +169,78 @@ def _ladder(fn, known):
     return rows, after_drop
 
 
+BASELINE = Path(__file__).resolve().parent / "baseline" / "Gena.json"
+
+
+def _make(cls):
+    for args, kw in (((), {}), (("x",), {}), ((), {"status": 500}), (("x",), {"status": 500})):
+        try:
+            return cls(*args, **kw)
+        except Exception:  # noqa: BLE001
+            continue
+    return None
+
+
+def _ladder_by_probe(repo, classes, err):
+    """async_resubscribe no longer has the shape the reader knows: keep the pinned ladder (tools/gen/baseline) if the
+    real method still treats every exception class exactly as that ladder says - registry entry dropped or kept,
+    exception re-raised or a fresh subscribe attempted; otherwise refuse, naming the class."""
+    import asyncio
+    import json
+    if not BASELINE.exists():
+        raise err
+    base = json.loads(BASELINE.read_text())
+    rows, after_drop = [tuple(r) for r in base["rows"]], base["after_drop"]
+    by_name = {c.__name__: c for c in classes}
+    eh = _import_repo(repo, "async_upnp_client.event_handler")
+    loop = asyncio.new_event_loop()
+    try:
+        for cls in classes:
+            exc = _make(cls)
+            if exc is None:
+                continue
+            seen = {"phase": "first"}
+
+            class _Req:
+                async def async_http_request(self, method, url, headers=None, body=None, _e=exc, _s=seen):
+                    hs = {str(k).lower(): v for k, v in (headers or {}).items()}
+                    if method == "SUBSCRIBE" and "sid" in hs and _s["phase"] == "renew":
+                        raise _e
+                    if method == "SUBSCRIBE" and "sid" not in hs:
+                        if _s["phase"] == "renew":
+                            _s["fresh"] = True
+                            _s["dropped"] = _s["handler"].service_for_sid("uuid:x") is None
+                            return 200, {"sid": "uuid:new", "timeout": "Second-1800"}, ""
+                        return 200, {"sid": "uuid:x", "timeout": "Second-1800"}, ""
+                    return 200, {}, ""
+            service = type("S", (), {"event_sub_url": "http://h/e", "service_id": "s", "service_type": "t", "device": None})()
+            handler = eh.UpnpEventHandler(type("N", (), {"callback_url": "http://c/"})(), _Req())
+            seen["handler"] = handler
+            loop.run_until_complete(handler.async_subscribe(service))
+            if handler.service_for_sid("uuid:x") is not service:
+                raise Refuse(f"{err}; and the probe could not establish a subscription through async_subscribe")
+            seen["phase"] = "renew"
+            try:
+                loop.run_until_complete(handler.async_resubscribe("uuid:x"))
+                got = ("fresh", seen.get("dropped")) if seen.get("fresh") else ("returned", None)
+            except BaseException as ex:  # noqa: BLE001
+                got = ("raised" if ex is exc else "raised-other:" + type(ex).__name__, handler.service_for_sid("uuid:x") is None)
+            row = next(((d, r) for n, d, r in rows if n in by_name and isinstance(exc, by_name[n])), None)
+            if row is None:
+                want = ("raised", False)
+            elif row[1]:
+                want = ("raised", row[0])
+            else:
+                want = ("fresh", row[0] or after_drop)
+            if got != want:
+                raise Refuse(f"{err}; and async_resubscribe treats {cls.__name__} as {got} where the pinned ladder says {want}", counterexample=True)
+    finally:
+        loop.close()
+    print(f"translator:Gena: note: source shape not recognised ({err}); the pinned except ladder is kept: async_resubscribe "
+          "treats every exception class as it says")
+    return rows, after_drop
+
+
 def generate(repo: Path) -> str:
     classes = _universe(repo)
     names = [c.__name__ for c in classes]
@@ -178,7 +250,10 @@ def generate(repo: Path) -> str:
     if len(handler) != 1:
         raise Refuse("class UpnpEventHandler not found")
     handler = handler[0]
-    rows, after_drop = _ladder(_func(handler, "async_resubscribe"), set(names))
+    try:
+        rows, after_drop = _ladder(_func(handler, "async_resubscribe"), set(names))
+    except Refuse as e:
+        rows, after_drop = _ladder_by_probe(repo, classes, e)
     d_sub = _default_timeout(_func(handler, "async_subscribe"))
     d_resub = _default_timeout(_func(handler, "async_resubscribe"))
 
